@@ -42,6 +42,9 @@ const (
 	kConstant    = "constant"
 	kLinear      = "linear"
 	kExponential = "exponential"
+	// the linear flag set while back-off is off: the documentation makes the flag apply "provided BackOffEnabled is set to
+	// true", so this is the constant policy
+	kConstantLinearFlag = "constant(linear-flag-set-but-back-off-off)"
 )
 
 var kinds = []string{kConstant, kLinear, kExponential}
@@ -54,8 +57,8 @@ func httpPolicy(enabled bool, retryMax int, kind string, honour bool, min, max t
 		RetryAfterDisabled:   !honour,
 		RetryWaitMin:         min,
 		RetryWaitMax:         max,
-		BackOffEnabled:       kind != kConstant,
-		LinearBackOffEnabled: kind == kLinear,
+		BackOffEnabled:       kind != kConstant && kind != kConstantLinearFlag,
+		LinearBackOffEnabled: kind == kLinear || kind == kConstantLinearFlag,
 	}
 }
 
@@ -167,7 +170,7 @@ func mulFits(a time.Duration, k int) (time.Duration, bool) {
 // baseOK tells whether w is a value the policy may compute without a server hint.
 func baseOK(c waitCase, w time.Duration) (ok, exempt bool) {
 	switch c.Kind {
-	case kConstant:
+	case kConstant, kConstantLinearFlag:
 		return w == c.Min, false
 	case kLinear:
 		lo, ok1 := mulFits(c.Min, c.N+1)
@@ -205,7 +208,7 @@ func checkWait(c waitCase, w time.Duration, now time.Time, observedGap bool) wai
 	bOK, exempt := baseOK(c, w)
 	neg := w < 0
 	base := func() waitVerdict {
-		v.Nontrivial = c.Kind != kConstant && (c.N > 0 || c.Min < c.Max)
+		v.Nontrivial = c.Kind != kConstant && c.Kind != kConstantLinearFlag && (c.N > 0 || c.Min < c.Max)
 		switch {
 		case exempt:
 			v.OK, v.Outcome = true, "linear:bounds-not-representable"
@@ -439,7 +442,7 @@ func sigB(c waitCase, v waitVerdict) string {
 func runPartB(t *testing.T, rep *ev.Reporter, thorough bool) partBResult {
 	durs := durations(thorough)
 	nsOf := map[string][]int{}
-	for _, k := range kinds {
+	for _, k := range append(append([]string(nil), kinds...), kConstantLinearFlag) {
 		nsOf[k] = attemptNumbers(thorough, k)
 	}
 	ras := retryAfterValues(thorough)
@@ -452,7 +455,7 @@ func runPartB(t *testing.T, rep *ev.Reporter, thorough bool) partBResult {
 		seed   int // > 0: the clock is that many nanoseconds past the bubble's epoch; -1: half a second past it ("mid-second")
 	}
 	var jobs []job
-	for _, k := range []string{kLinear, kExponential, kConstant} { // the expensive ones first
+	for _, k := range []string{kLinear, kExponential, kConstant, kConstantLinearFlag} { // the expensive ones first
 		for _, h := range []bool{false, true} {
 			for mi := range durs {
 				for xi := mi; xi < len(durs); xi++ {
